@@ -40,13 +40,14 @@
 enum {
     EV_OPEN = 1, EV_CLOSE = 2, EV_READ = 3, EV_WRITE = 4, EV_LSEEK = 5, EV_FTRUNCATE = 6,
     EV_FSYNC = 7, EV_UNLINK = 8, EV_OPENDIR = 9, EV_READDIR = 10, EV_RENAME = 11,
-    EV_MARK = 12, EV_UNMODELLED = 13, EV_MKDIR = 14, EV_RMDIR = 15, EV_CLOSEDIR = 17
+    EV_MARK = 12, EV_UNMODELLED = 13, EV_MKDIR = 14, EV_RMDIR = 15, EV_CLOSEDIR = 17,
+    EV_STAT = 18
 };
 
 enum {
     CL_OPENDIR = 0, CL_READDIR = 1, CL_OPEN_FILE = 2, CL_OPEN_DIRFD = 3, CL_READ = 4,
     CL_WRITE = 5, CL_LSEEK = 6, CL_FTRUNCATE = 7, CL_FSYNC = 8, CL_UNLINK = 9,
-    CL_CLOSE = 10, CL_OTHER = 11, IOT_NCLASS = 12
+    CL_CLOSE = 10, CL_OTHER = 11, CL_STAT = 12, IOT_NCLASS = 13
 };
 
 struct ev {
@@ -188,6 +189,9 @@ void iot_set_root(const char *p)
     memcpy(g_root, p, n); g_root[n] = 0; g_rootlen = n;
 }
 void iot_pause(int on) { g_paused = on; }
+/* Hostile-but-legal file system: readdir reports DT_UNKNOWN for every entry under the root. */
+static int g_dt_unknown;
+void iot_dt_unknown(int on) { g_dt_unknown = on; }
 void iot_reset(void)
 {
     g_alen = 0; g_total = 0; g_budget = -1; g_unmodelled = 0;
@@ -628,6 +632,7 @@ struct dirent64 *readdir64(DIR *d)
     inj = account(CL_READDIR);
     if (inj) { e = NULL; err = inj; }
     else { errno = 0; e = real_readdir64(d); err = e ? 0 : errno; }
+    if (e && g_dt_unknown) e->d_type = DT_UNKNOWN;
     emit(EV_READDIR, -1, g_dirs[s].path_id, err, e ? 1 : 0, 0, 0, e ? e->d_type : 0,
          e ? e->d_name : "", e ? (uint32_t)strlen(e->d_name) : 0);
     pthread_mutex_unlock(&g_mu);
@@ -644,6 +649,7 @@ struct dirent *readdir(DIR *d)
     inj = account(CL_READDIR);
     if (inj) { e = NULL; err = inj; }
     else { errno = 0; e = real_readdir(d); err = e ? 0 : errno; }
+    if (e && g_dt_unknown) e->d_type = DT_UNKNOWN;
     emit(EV_READDIR, -1, g_dirs[s].path_id, err, e ? 1 : 0, 0, 0, e ? e->d_type : 0,
          e ? e->d_name : "", e ? (uint32_t)strlen(e->d_name) : 0);
     pthread_mutex_unlock(&g_mu);
@@ -664,4 +670,119 @@ int closedir(DIR *d)
             g_dirs[i].d = NULL;
         }
     return real_closedir(d);
+}
+
+/* ---- stat family ----------------------------------------------------------------------- */
+/* Resolve (dirfd, path) to a path under the root; returns 0 when the call is not traced. */
+static int stat_target(int dfd, const char *path, int flags, char *out, size_t n, int *fd_out)
+{
+    int i;
+    *fd_out = -1;
+    if (g_paused) return 0;
+    if (path && path[0] == '/') {
+        if (!under_root(path)) return 0;
+        snprintf(out, n, "%s", path);
+        return 1;
+    }
+    if ((!path || !path[0]) && (flags & AT_EMPTY_PATH)) {
+        if (!traced_fd(dfd)) return 0;
+        snprintf(out, n, "%s", g_paths[g_fdpath[dfd] - 1]);
+        *fd_out = dfd;
+        return 1;
+    }
+    if (!path) return 0;
+    if (dfd >= 0 && dfd < MAXFD && g_fdpath[dfd]) {
+        snprintf(out, n, "%s/%s", g_paths[g_fdpath[dfd] - 1], path);
+        return 1;
+    }
+    for (i = 0; i < MAXDIRS; i++)
+        if (g_dirs[i].d && dirfd(g_dirs[i].d) == dfd) {
+            snprintf(out, n, "%s/%s", g_paths[g_dirs[i].path_id], path);
+            return 1;
+        }
+    return 0;
+}
+#define STAT_BODY(CALL)                                                        \
+    do {                                                                       \
+        int r, inj, err;                                                       \
+        pthread_mutex_lock(&g_mu);                                             \
+        inj = account(CL_STAT);                                                \
+        if (inj) { r = -1; err = inj; } else { r = (CALL); err = r < 0 ? errno : 0; } \
+        emit(EV_STAT, sfd, path_id(sbuf), err, r, 0, 0, 0, 0, 0);               \
+        pthread_mutex_unlock(&g_mu);                                           \
+        errno = err;                                                           \
+        return r;                                                              \
+    } while (0)
+
+static int (*real_statx)(int, const char *, int, unsigned, struct statx *);
+int statx(int dfd, const char *path, int flags, unsigned mask, struct statx *buf)
+{
+    char sbuf[8192]; int sfd;
+    if (!real_statx) real_statx = dlsym(RTLD_NEXT, "statx");
+    if (!stat_target(dfd, path, flags, sbuf, sizeof sbuf, &sfd)) return real_statx(dfd, path, flags, mask, buf);
+    STAT_BODY(real_statx(dfd, path, flags, mask, buf));
+}
+static int (*real_stat)(const char *, struct stat *);
+int stat(const char *path, struct stat *buf)
+{
+    char sbuf[8192]; int sfd;
+    if (!real_stat) real_stat = dlsym(RTLD_NEXT, "stat");
+    if (!stat_target(AT_FDCWD, path, 0, sbuf, sizeof sbuf, &sfd)) return real_stat(path, buf);
+    STAT_BODY(real_stat(path, buf));
+}
+static int (*real_stat64)(const char *, struct stat64 *);
+int stat64(const char *path, struct stat64 *buf)
+{
+    char sbuf[8192]; int sfd;
+    if (!real_stat64) real_stat64 = dlsym(RTLD_NEXT, "stat64");
+    if (!stat_target(AT_FDCWD, path, 0, sbuf, sizeof sbuf, &sfd)) return real_stat64(path, buf);
+    STAT_BODY(real_stat64(path, buf));
+}
+static int (*real_lstat)(const char *, struct stat *);
+int lstat(const char *path, struct stat *buf)
+{
+    char sbuf[8192]; int sfd;
+    if (!real_lstat) real_lstat = dlsym(RTLD_NEXT, "lstat");
+    if (!stat_target(AT_FDCWD, path, 0, sbuf, sizeof sbuf, &sfd)) return real_lstat(path, buf);
+    STAT_BODY(real_lstat(path, buf));
+}
+static int (*real_lstat64)(const char *, struct stat64 *);
+int lstat64(const char *path, struct stat64 *buf)
+{
+    char sbuf[8192]; int sfd;
+    if (!real_lstat64) real_lstat64 = dlsym(RTLD_NEXT, "lstat64");
+    if (!stat_target(AT_FDCWD, path, 0, sbuf, sizeof sbuf, &sfd)) return real_lstat64(path, buf);
+    STAT_BODY(real_lstat64(path, buf));
+}
+static int (*real_fstat)(int, struct stat *);
+int fstat(int fd, struct stat *buf)
+{
+    char sbuf[8192]; int sfd;
+    if (!real_fstat) real_fstat = dlsym(RTLD_NEXT, "fstat");
+    if (!stat_target(fd, "", AT_EMPTY_PATH, sbuf, sizeof sbuf, &sfd)) return real_fstat(fd, buf);
+    STAT_BODY(real_fstat(fd, buf));
+}
+static int (*real_fstat64)(int, struct stat64 *);
+int fstat64(int fd, struct stat64 *buf)
+{
+    char sbuf[8192]; int sfd;
+    if (!real_fstat64) real_fstat64 = dlsym(RTLD_NEXT, "fstat64");
+    if (!stat_target(fd, "", AT_EMPTY_PATH, sbuf, sizeof sbuf, &sfd)) return real_fstat64(fd, buf);
+    STAT_BODY(real_fstat64(fd, buf));
+}
+static int (*real_fstatat)(int, const char *, struct stat *, int);
+int fstatat(int dfd, const char *path, struct stat *buf, int flags)
+{
+    char sbuf[8192]; int sfd;
+    if (!real_fstatat) real_fstatat = dlsym(RTLD_NEXT, "fstatat");
+    if (!stat_target(dfd, path, flags, sbuf, sizeof sbuf, &sfd)) return real_fstatat(dfd, path, buf, flags);
+    STAT_BODY(real_fstatat(dfd, path, buf, flags));
+}
+static int (*real_fstatat64)(int, const char *, struct stat64 *, int);
+int fstatat64(int dfd, const char *path, struct stat64 *buf, int flags)
+{
+    char sbuf[8192]; int sfd;
+    if (!real_fstatat64) real_fstatat64 = dlsym(RTLD_NEXT, "fstatat64");
+    if (!stat_target(dfd, path, flags, sbuf, sizeof sbuf, &sfd)) return real_fstatat64(dfd, path, buf, flags);
+    STAT_BODY(real_fstatat64(dfd, path, buf, flags));
 }
